@@ -128,7 +128,7 @@ func genC06(tier string, seed int64) []Case {
 	if tier == "thorough" {
 		r := rng(seed, "C06")
 		// ordered double faults and hook delays
-		for i := 0; i < 1500; i++ {
+		for i := 0; i < 6000; i++ {
 			nExt := 1 + r.Intn(2)
 			d := c06Desc{NExt: nExt, Exit: c06Exits[r.Intn(4)], Timing: []string{"early", "late"}[r.Intn(2)], RtResp: []string{"before", "withheld"}[r.Intn(2)]}
 			if r.Intn(2) == 0 {
